@@ -436,6 +436,11 @@ pub fn run_shape_idx(ins: &mut Instruction, sh: &Shape, spec: Option<SpecFn>, mo
     run_shape_opt(ins, sh, spec, mode, pre, Some(idx));
 }
 
+/// Execute and check a state that the caller has already built (and possibly concretised).
+pub fn run_state(ins: &mut Instruction, st: PushState, sh: &Shape, spec: Option<SpecFn>, mode: Mode) {
+    run_built(ins, st, sh, spec, mode, pre_none, None);
+}
+
 fn run_shape_opt(ins: &mut Instruction, sh: &Shape, spec: Option<SpecFn>, mode: Mode, pre: PreFn, idx: Option<i32>) {
     let mut st = build(sh);
     if let Some(v) = idx {
@@ -443,6 +448,10 @@ fn run_shape_opt(ins: &mut Instruction, sh: &Shape, spec: Option<SpecFn>, mode: 
             *t = v;
         }
     }
+    run_built(ins, st, sh, spec, mode, pre, idx);
+}
+
+fn run_built(ins: &mut Instruction, mut st: PushState, sh: &Shape, spec: Option<SpecFn>, mode: Mode, pre: PreFn, idx: Option<i32>) {
     kani::assume(pre(&st));
     let cache = icache();
     if mode == Mode::Cost {
@@ -457,14 +466,25 @@ fn run_shape_opt(ins: &mut Instruction, sh: &Shape, spec: Option<SpecFn>, mode: 
         let mut st2 = twin(&st, sh);
         (ins.execute)(&mut st, &cache);
         let a = snap(&st);
-        // unrelated activity between the two runs: process-wide node ids are handed out
+        // unrelated activity between the two runs: process-wide node ids are handed out and the same
+        // instruction runs on an UNRELATED state of the same shape (the solver picks its contents
+        // adversarially, e.g. to collide with an incompletely keyed cache)
         let n1 = pushr::push::graph::Node::new(0);
         let n2 = pushr::push::graph::Node::new(1);
         assert!(n1.get_id() != n2.get_id(), "node id handed out twice");
+        let mut other = build(sh);
+        if let Some(v) = idx {
+            if let Some(t) = other.int_stack.get_mut(0) {
+                *t = v;
+            }
+        }
+        kani::assume(pre(&other));
+        (ins.execute)(&mut other, &cache);
         (ins.execute)(&mut st2, &cache);
         let b = snap(&st2);
         std::mem::forget(st);
         std::mem::forget(st2);
+        std::mem::forget(other);
         std::mem::forget(cache);
         assert_snap_eq(&a, &b);
         return;
